@@ -16,6 +16,7 @@ import (
 	"testing"
 
 	"github.com/icon-project/goloop/common"
+	"github.com/icon-project/goloop/common/codec"
 	"github.com/icon-project/goloop/common/intconv"
 
 	"verifharness/tlaio"
@@ -149,12 +150,40 @@ func realEncode(kind string, x *big.Int) (out []byte, note string) {
 		if hb := h.Bytes(); !bytes.Equal(hb, out) {
 			note = fmt.Sprintf("HexInt.Bytes %x differs from BigIntToBytes %x", hb, out)
 		}
+		if mb, err := h.MarshalBinary(); err != nil || !bytes.Equal(mb, out) {
+			note = fmt.Sprintf("HexInt.MarshalBinary %x differs from BigIntToBytes %x", mb, out)
+		}
+		var h2 common.HexInt
+		if err := h2.UnmarshalBinary(out); err != nil || h2.Int.Cmp(x) != 0 || func() bool { c := h.Clone(); return c.Int.Cmp(x) != 0 }() || h.Value().Cmp(x) != 0 {
+			note = fmt.Sprintf("HexInt.UnmarshalBinary(%x) = %s", out, h2.Int.String())
+		}
+		var h3 common.HexInt
+		if enc, err := codec.BC.MarshalToBytes(&h); err != nil {
+			note = "codec form of HexInt: " + err.Error()
+		} else if _, err := codec.BC.UnmarshalFromBytes(enc, &h3); err != nil || h3.Int.Cmp(x) != 0 {
+			note = fmt.Sprintf("codec round trip of HexInt %s gives %s (%v)", x, h3.Int.String(), err)
+		}
 		return
 	case "int":
 		if !x.IsInt64() {
 			return nil, "model enabled the int64 encoder for a number outside int64"
 		}
-		return intconv.Int64ToBytes(x.Int64()), ""
+		// the codec form of the HexInt64 wrapper is the codec form of the plain int64, and it reads back
+		w := common.HexInt64{Value: x.Int64()}
+		var w2 common.HexInt64
+		e1, err1 := codec.BC.MarshalToBytes(&w)
+		e2, err2 := codec.BC.MarshalToBytes(x.Int64())
+		if err1 != nil || err2 != nil || !bytes.Equal(e1, e2) {
+			note = fmt.Sprintf("codec form of HexInt64(%d) is %x, of int64 %x", x.Int64(), e1, e2)
+		} else if _, err := codec.BC.UnmarshalFromBytes(e1, &w2); err != nil || w2.Value != w.Value {
+			note = fmt.Sprintf("codec round trip of HexInt64(%d) gives %d (%v)", w.Value, w2.Value, err)
+		}
+		if x.Cmp(big.NewInt(int64(int16(x.Int64())))) == 0 {
+			if hb := (common.HexInt16{Value: int16(x.Int64())}).Bytes(); !bytes.Equal(hb, intconv.Int64ToBytes(x.Int64())) {
+				note = fmt.Sprintf("HexInt16.Bytes %x", hb)
+			}
+		}
+		return intconv.Int64ToBytes(x.Int64()), note
 	case "uint":
 		if !x.IsUint64() {
 			return nil, "model enabled the uint64 encoder for a number outside uint64"
